@@ -253,6 +253,12 @@ Qed.
 Lemma py_re_escape_1 : forall c, py_re_escape [c] = re_escape c.
 Proof. intros c. unfold py_re_escape. cbn. apply app_nil_r. Qed.
 
+Lemma py_join_nil : forall l, py_join [] l = concat l.
+Proof.
+  induction l as [|a r IH]; [reflexivity|]. cbn [py_join concat]. destruct r as [|b r']; [cbn; now rewrite app_nil_r|].
+  rewrite IH. reflexivity.
+Qed.
+
 Lemma text_eqb_1 : forall c d, text_eqb [c] [d] = (c =? d)%N.
 Proof. intros. cbn. apply andb_true_r. Qed.
 
@@ -304,14 +310,14 @@ Proof. reflexivity. Qed.
 Ltac sx := repeat first [ rewrite exec_seq | rewrite exec_assign | rewrite exec_append | rewrite exec_if
                         | rewrite exec_return | rewrite exec_skip ];
            cbv beta iota delta [eval bind as_str as_int as_bool as_char eval_bool stuck cmp_int existsb
-                                py_format py_join text_eqb];
+                                py_format text_eqb];
            cbn [N.eqb Pos.eqb negb orb andb].
 
 Ltac prim := repeat first
   [ rewrite zs | rewrite ltb_nat | rewrite leb_nat | rewrite eqb_m1 | rewrite ltb_len | rewrite py_index_nat
   | rewrite py_slice_nat | rewrite py_slice_tail | rewrite py_index_0 | rewrite py_startswith_char
   | rewrite py_find_rbr | rewrite py_replace_bsl | rewrite py_re_escape_1 | rewrite andb_true_r
-  | rewrite orb_false_r | progress unfold zlen ].
+  | rewrite orb_false_r | rewrite py_join_nil | progress unfold zlen | progress unfold char_at ].
 
 (* resolve a variable lookup from what is known about the environment *)
 Ltac lk1 :=
@@ -338,6 +344,8 @@ Ltac contra :=
   | H : None = Some _ |- _ => discriminate H
   | H : true = false |- _ => discriminate H
   | H : false = true |- _ => discriminate H
+  | H1 : (?x =? ?a)%N = true, H2 : (?x =? ?b)%N = true |- _ =>
+    apply N.eqb_eq in H1; apply N.eqb_eq in H2; rewrite H1 in H2; discriminate H2
   end.
 
 (* case analysis on what execution is stuck on *)
@@ -409,7 +417,9 @@ Section Translate.
 
   Ltac finish_acc :=
     first [ reflexivity
-          | eexists; split; [run; reflexivity|]; rewrite concat_app; cbn [concat]; rewrite ?app_nil_r; reflexivity ].
+          | repeat rewrite <- app_assoc; reflexivity
+          | eexists; split; [run; reflexivity|]; rewrite concat_app; cbn [concat]; rewrite ?app_nil_r;
+            repeat rewrite <- app_assoc; reflexivity ].
   Ltac finish :=
     first [ reflexivity
           | eexists; split; [reflexivity|]; split; [run; reflexivity|]; split; [run; reflexivity|];
@@ -426,13 +436,47 @@ Section Translate.
     unfold Inv, n_holds, acc_holds, tr_n, tr_acc, tr_pat, tr_i, tr_body, tstep in *.
     try (destruct Ha as (l & Ha & Hl); subst acc).
     run.
-    destruct (c =? 42)%N eqn:E42.
-    { unfold char_at. repeat (run; first [dchar p | dtest]). all: run; finish. }
-    destruct (c =? 63)%N eqn:E63.
-    { run; finish. }
-    destruct (c =? 91)%N eqn:E91; [|run; finish].
-    unfold char_at. cbv zeta.
-    repeat (run; try contra; first [dchar p | dtest | scan p | dleb p | dstuff]).
+    (* the three tests of the model on c first (they keep the model side small); then whatever execution meets *)
+    destruct (c =? 42)%N eqn:E42; [|destruct (c =? 63)%N eqn:E63; [|destruct (c =? 91)%N eqn:E91]].
+    all: cbv zeta; repeat (run; try contra; first [dchar p | dtest | scan p | dleb p | dstuff]).
     all: try contra; run; finish.
+  Qed.
+
+  (* the whole loop *)
+  Lemma loop_run : forall fuel k e i acc, Inv e i acc -> (length p < fuel)%nat ->
+    match tabs_loop k p i acc with
+    | Ok res => exists e' i', while_loop (fun e0 => eval_bool e0 tr_cond) (exec tr_body fuel) k e = RNormal e' /\
+                              Inv e' i' res
+    | Err x => while_loop (fun e0 => eval_bool e0 tr_cond) (exec tr_body fuel) k e = RErr x
+    end.
+  Proof.
+    intros fuel. induction k as [|k IH]; intros e i acc HI Hf; [reflexivity|].
+    cbn [tabs_loop while_loop]. rewrite (cond_step e i acc HI).
+    destruct (nth_error p i) as [c|] eqn:Hc.
+    - pose proof (body_step e i acc c fuel HI Hc Hf) as HB.
+      destruct (tstep p i c) as [[i' piece]|x].
+      + destruct HB as (e' & -> & HI'). apply IH; assumption.
+      + now rewrite HB.
+    - exists e, i. split; [reflexivity|assumption].
+  Qed.
+
+  Theorem run_translate_eq : run_translate translate_code p = translate p.
+  Proof.
+    rewrite translate_is_tabs. unfold run_translate, call_str, translate_code. cbn [f_body f_param].
+    rewrite exec_seq.
+    assert (HP : exists e1, exec tr_prelude (S (length p)) (set env0 0%N (VStr p)) = RNormal e1 /\ Inv e1 0 []).
+    { unfold tr_prelude, Inv, n_holds, acc_holds, tr_n, tr_acc, tr_pat, tr_i, env0. run.
+      eexists. split; [reflexivity|]. split; [run; reflexivity|]. split; [run; reflexivity|].
+      split; [run; try reflexivity|]. run. first [reflexivity | exists []; split; [run; reflexivity|reflexivity]]. }
+    destruct HP as (e1 & -> & HI1). rewrite exec_seq.
+    change (exec (SWhile tr_cond tr_body) (S (length p)) e1)
+      with (while_loop (fun e0 => eval_bool e0 tr_cond) (exec tr_body (S (length p))) (S (length p)) e1).
+    pose proof (loop_run (S (length p)) (S (length p)) e1 0%nat [] HI1 (Nat.lt_succ_diag_r _)) as HL.
+    destruct (tabs_loop (S (length p)) p 0 []) as [res|x].
+    - destruct HL as (e' & i' & -> & (Hp & Hi & Hn & Ha)).
+      unfold n_holds, acc_holds, tr_n, tr_acc, tr_pat, tr_i, tr_ret in *.
+      try (destruct Ha as (l & Ha & Hl); subst res).
+      run. reflexivity.
+    - rewrite HL. reflexivity.
   Qed.
 End Translate.
